@@ -92,6 +92,8 @@ def gen(seed, run, sub="clean", tier="quick"):
         faults.append({"k": "loss", "rx": r.randrange(2, n + 4), "dt": round(r.choice([0, 0.0005, 0.02]), 6),
                        "mode": r.choice(modes), "phase": r.choice(["rx", "processed"])})
     ops = []
+    if r.random() < 0.06:
+        ops.append(["signal_other"])
     explicit = True if sub == "clean" else (r.random() < 0.5)
     if explicit:
         ops.append(["connect"])
@@ -174,6 +176,12 @@ def execute(scn, guide=None, keep=False, observer=None):
     def fire(f):
         if f["k"] == "unsol":
             fw.unsolicited(f["text"])
+        elif f["k"] == "burst":
+            if f.get("head"):
+                fw.unsolicited(f["head"])
+            for j in range(int(f["n"])):
+                k.after((j + 1) * 0.002, fw.unsolicited, f["text"])
+            k.probe("fault.report_burst")
         elif f["k"] == "loss":
             do_loss(f["mode"])
 
@@ -267,6 +275,12 @@ def execute(scn, guide=None, keep=False, observer=None):
                                  type(e).__name__))
                     if lost["fired"]:
                         state["stopped_after_loss"] = True
+            elif op[0] == "signal_other":
+                # another writer object of the same process handled SIGINT earlier
+                other = mk_writer()
+                getattr(other, "_writer_delegate", other)._on_shutdown_signal(2, None)
+                k.ev("signal-to-other-writer")
+                k.probe("c16.signal_delivered_to_other_writer")
             elif op[0] == "timeout":
                 w.set_timeout(op[1])
                 k.ev("set-timeout", op[1])
@@ -600,6 +614,9 @@ class C16Lane(Lane):
                  "time", "signal.signal", "platform.system", "firmware peer"],
     }
 
+    # unchanged tree: D3 is attributed in 33-40 % of D3-lane runs
+    RATE_GUARDS = {("d3", "findings", "D3"): (0.65, 10)}
+
     def subs(self, tier):
         return [("clean", 1400), ("d3", 700)] if tier == "quick" else [("clean", 40000), ("d3", 20000)]
 
@@ -629,6 +646,8 @@ class C16Lane(Lane):
                 ready = prev == "connect"
             elif op[0] == "disconnect":
                 ready = False
+            elif op[0] == "signal_other":
+                continue
             elif op[0] in ("write", "idle_error", "timeout") and not ready:
                 return False
             prev = op[0]
